@@ -201,7 +201,7 @@ def run(kind, prob, x0, settings, precond="exact", script=None, bounds=None, pre
             gxc = float(np.linalg.norm(measure(np.array(info["xc"]))))
             conv = bool((my @ my) < tol ** 2) if kind in ("tr", "sub", "nes") else bool(myn < tol)
             ev.append(dict(e="Trial", rho=rho_class(info, settings), resNW=bool(myn <= gxc), conv=conv,
-                           code=info["code"] or ""))
+                           code=info["code"] or "", modelPos=bool(info["model"] > 0)))
         elif item[0] == "update_precond":
             ev.append(dict(e="Refresh"))
         elif item[0] == "report":
